@@ -106,4 +106,59 @@ theorem take_append_length (a b : Bytes) : (a ++ b).take a.length = a := by simp
 
 theorem drop_append_length (a b : Bytes) : (a ++ b).drop a.length = b := by simp
 
+
+/-! ### `OutputMemoryStream` as "emit these bytes" -/
+
+/-- the stream after `bs` has been written through it -/
+def emit (o : OutCursor) (bs : Bytes) : OutCursor := ⟨o.done ++ bs, o.rest.drop bs.length, o.size - bs.length⟩
+
+theorem emit_nil (o : OutCursor) : emit o [] = o := by simp [emit]
+
+theorem emit_emit (o : OutCursor) (a b : Bytes) : emit (emit o a) b = emit o (a ++ b) := by
+  simp only [emit, List.append_assoc, List.drop_drop, List.length_append, OutCursor.mk.injEq, true_and]
+  omega
+
+theorem emit_inv (o : OutCursor) (bs : Bytes) (hi : o.Inv) (h : bs.length ≤ o.size) : (emit o bs).Inv := by
+  simp only [OutCursor.Inv, emit, List.length_drop] at *; omega
+
+theorem emit_size (o : OutCursor) (bs : Bytes) : (emit o bs).size = o.size - bs.length := rfl
+
+theorem write_ok (o : OutCursor) (bs : Bytes) (hi : o.Inv) (h : bs.length ≤ o.size) : o.write bs = .ok (emit o bs) := by
+  unfold OutCursor.write emit
+  have h1 : ¬ o.size < bs.length := by omega
+  have h2 : ¬ o.rest.length < bs.length := by simp only [OutCursor.Inv] at hi; omega
+  simp [h1, h2]
+
+theorem write_throws (o : OutCursor) (bs : Bytes) (h : o.size < bs.length) : o.write bs = .throw .serializationError := by
+  unfold OutCursor.write; simp [h]
+
+theorem writeBE_ok (o : OutCursor) (n v : Nat) (hi : o.Inv) (h : n ≤ o.size) :
+    o.writeBE n v = .ok (emit o (OutCursor.beBytes n v)) := by
+  unfold OutCursor.writeBE; exact write_ok o _ hi (by simpa using h)
+
+theorem skip_ok (o : OutCursor) (n : Nat) (hi : o.Inv) (h : n ≤ o.size) : o.skip n = .ok (emit o (o.rest.take n)) := by
+  unfold OutCursor.skip emit
+  have h1 : ¬ n > o.size := by omega
+  have h2 : (o.rest.take n).length = n := by simp only [OutCursor.Inv] at hi; simp only [List.length_take]; omega
+  simp [h1, h2]
+
+theorem fill_ok (o : OutCursor) (n : Nat) (v : UInt8) (hi : o.Inv) (h : n ≤ o.size) :
+    o.fill n v = .ok (emit o (List.replicate n v)) := by
+  unfold OutCursor.fill emit
+  have h1 : ¬ o.size < n := by omega
+  have h2 : ¬ o.rest.length < n := by simp only [OutCursor.Inv] at hi; omega
+  simp [h1, h2]
+
+theorem ofRegion_inv (r : Bytes) : (OutCursor.ofRegion r).Inv := by simp [OutCursor.ofRegion, OutCursor.Inv]
+
+/-- the buffer after emitting `bs` from the start of a region -/
+theorem emit_ofRegion_buffer (r bs : Bytes) : (emit (OutCursor.ofRegion r) bs).buffer = bs ++ r.drop bs.length := by
+  simp [emit, OutCursor.ofRegion, OutCursor.buffer]
+
+theorem emit_ofRegion_rest (r bs : Bytes) : (emit (OutCursor.ofRegion r) bs).rest = r.drop bs.length := by
+  simp [emit, OutCursor.ofRegion]
+
+theorem emit_ofRegion_size (r bs : Bytes) : (emit (OutCursor.ofRegion r) bs).size = r.length - bs.length := by
+  simp [emit, OutCursor.ofRegion]
+
 end Tins.Wire.App
